@@ -31,10 +31,10 @@ func (c *Pos1Circuit) Define(api frontend.API) error {
 // PosChainCircuit calls Poseidon2 and Poseidon1 several times in one Define,
 // feeding outputs forward and re-using input variables (state-aliasing probe):
 //
-//	h0 = P2(A,B); h1 = P1(h0); h2 = P2(h1,A); h3 = P2(B,h2); h4 = P1(A); h5 = P2(h4,h3); again = P2(A,B)
+//	h0 = P2(A,B); h1 = P1(h0); h2 = P2(h1,A); h3 = P2(B,h2); h4 = P1(A); h5 = P2(h4,h3); again = P2(A,B); same = P2(A,A)
 type PosChainCircuit struct {
 	A, B frontend.Variable
-	Out  [7]frontend.Variable
+	Out  [8]frontend.Variable
 }
 
 func (c *PosChainCircuit) Define(api frontend.API) error {
@@ -45,7 +45,8 @@ func (c *PosChainCircuit) Define(api frontend.API) error {
 	h4 := abstractor.Call(api, poseidon.Poseidon1{In: c.A})
 	h5 := abstractor.Call(api, poseidon.Poseidon2{In1: h4, In2: h3})
 	again := abstractor.Call(api, poseidon.Poseidon2{In1: c.A, In2: c.B})
-	for i, h := range []frontend.Variable{h0, h1, h2, h3, h4, h5, again} {
+	same := abstractor.Call(api, poseidon.Poseidon2{In1: c.A, In2: c.A}) // the same variable in both positions
+	for i, h := range []frontend.Variable{h0, h1, h2, h3, h4, h5, again, same} {
 		api.AssertIsEqual(h, c.Out[i])
 	}
 	return nil
